@@ -765,6 +765,16 @@ let rec find f = function
 | [] -> None
 | x :: tl -> if f x then Some x else find f tl
 
+(** val combine : 'a1 list -> 'a2 list -> ('a1 * 'a2) list **)
+
+let rec combine l l' =
+  match l with
+  | [] -> []
+  | x :: tl ->
+    (match l' with
+     | [] -> []
+     | y :: tl' -> (x, y) :: (combine tl tl'))
+
 (** val seq : nat -> nat -> nat list **)
 
 let rec seq start = function
@@ -3591,6 +3601,11 @@ let rec render_pieces d = function
 let line_of_row d =
   render_pieces d export_layout_src
 
+(** val export : row list -> string list res **)
+
+let export rows =
+  mapM line_of_row rows
+
 (** val clean : string -> bool **)
 
 let clean s =
@@ -4619,6 +4634,70 @@ let run_many cmd a =
                          | None -> VZ (Zneg XH))
                  else None
 
+(** val snapshot : row list -> row list res **)
+
+let snapshot rows =
+  bind (export rows) (fun ls ->
+    bind (parse_lines ls Z0) (fun r -> Ok (fst r)))
+
+(** val run_store : string -> v list -> v option **)
+
+let run_store cmd a =
+  if eqb1 cmd (String ((Ascii (true, true, false, false, true, true, true,
+       false)), (String ((Ascii (false, false, true, false, true, true, true,
+       false)), (String ((Ascii (true, true, true, true, false, true, true,
+       false)), (String ((Ascii (false, true, false, false, true, true, true,
+       false)), (String ((Ascii (true, false, true, false, false, true, true,
+       false)), (String ((Ascii (false, true, true, true, false, true, false,
+       false)), (String ((Ascii (true, true, false, false, true, true, true,
+       false)), (String ((Ascii (false, true, true, true, false, true, true,
+       false)), (String ((Ascii (true, false, false, false, false, true,
+       true, false)), (String ((Ascii (false, false, false, false, true,
+       true, true, false)), (String ((Ascii (true, true, false, false, true,
+       true, true, false)), (String ((Ascii (false, false, false, true,
+       false, true, true, false)), (String ((Ascii (true, true, true, true,
+       false, true, true, false)), (String ((Ascii (false, false, true,
+       false, true, true, true, false)),
+       EmptyString))))))))))))))))))))))))))))
+  then Some
+         (vres
+           (bind (snapshot (map row_of_V (getL (nth O a (VZ Z0))))) (fun t ->
+             Ok (vrows t))))
+  else if eqb1 cmd (String ((Ascii (true, true, false, false, true, true,
+            true, false)), (String ((Ascii (false, false, false, false, true,
+            true, true, false)), (String ((Ascii (true, false, true, false,
+            false, true, true, false)), (String ((Ascii (true, true, false,
+            false, false, true, true, false)), (String ((Ascii (false, true,
+            true, true, false, true, false, false)), (String ((Ascii (true,
+            true, false, false, true, true, true, false)), (String ((Ascii
+            (false, false, true, false, true, true, true, false)), (String
+            ((Ascii (true, true, true, true, false, true, true, false)),
+            (String ((Ascii (false, true, false, false, true, true, true,
+            false)), (String ((Ascii (true, false, true, false, false, true,
+            true, false)), (String ((Ascii (false, true, true, true, false,
+            true, false, false)), (String ((Ascii (true, false, false, false,
+            false, true, true, false)), (String ((Ascii (false, false, false,
+            false, true, true, true, false)), (String ((Ascii (false, false,
+            false, false, true, true, true, false)), (String ((Ascii (false,
+            true, false, false, true, true, true, false)), (String ((Ascii
+            (true, true, true, true, false, true, true, false)), (String
+            ((Ascii (false, false, false, true, true, true, true, false)),
+            (String ((Ascii (true, true, true, true, true, false, true,
+            false)), (String ((Ascii (false, false, true, false, true, true,
+            true, false)), (String ((Ascii (true, false, false, false, false,
+            true, true, false)), (String ((Ascii (false, true, false, false,
+            false, true, true, false)), (String ((Ascii (false, false, true,
+            true, false, true, true, false)), (String ((Ascii (true, false,
+            true, false, false, true, true, false)),
+            EmptyString))))))))))))))))))))))))))))))))))))))))))))))
+       then let s = map row_of_V (getL (nth O a (VZ Z0))) in
+            let d = map row_of_V (getL (nth (S O) a (VZ Z0))) in
+            Some
+            (vB
+              ((&&) (Nat.eqb (length s) (length d))
+                (forallb (fun p -> approx_row (fst p) (snd p)) (combine s d))))
+       else None
+
 (** val vresS : string res -> v **)
 
 let vresS = function
@@ -4805,27 +4884,31 @@ let run = function
                  (match run_many cmd args with
                   | Some r -> r
                   | None ->
-                    vErr (String ((Ascii (true, false, true, false, true,
-                      true, true, false)), (String ((Ascii (false, true,
-                      true, true, false, true, true, false)), (String ((Ascii
-                      (true, true, false, true, false, true, true, false)),
-                      (String ((Ascii (false, true, true, true, false, true,
-                      true, false)), (String ((Ascii (true, true, true, true,
-                      false, true, true, false)), (String ((Ascii (true,
-                      true, true, false, true, true, true, false)), (String
-                      ((Ascii (false, true, true, true, false, true, true,
-                      false)), (String ((Ascii (true, false, true, true,
-                      false, true, false, false)), (String ((Ascii (true,
-                      true, false, false, false, true, true, false)), (String
-                      ((Ascii (true, true, true, true, false, true, true,
-                      false)), (String ((Ascii (true, false, true, true,
-                      false, true, true, false)), (String ((Ascii (true,
-                      false, true, true, false, true, true, false)), (String
-                      ((Ascii (true, false, false, false, false, true, true,
-                      false)), (String ((Ascii (false, true, true, true,
-                      false, true, true, false)), (String ((Ascii (false,
-                      false, true, false, false, true, true, false)),
-                      EmptyString))))))))))))))))))))))))))))))))))
+                    (match run_store cmd args with
+                     | Some r -> r
+                     | None ->
+                       vErr (String ((Ascii (true, false, true, false, true,
+                         true, true, false)), (String ((Ascii (false, true,
+                         true, true, false, true, true, false)), (String
+                         ((Ascii (true, true, false, true, false, true, true,
+                         false)), (String ((Ascii (false, true, true, true,
+                         false, true, true, false)), (String ((Ascii (true,
+                         true, true, true, false, true, true, false)),
+                         (String ((Ascii (true, true, true, false, true,
+                         true, true, false)), (String ((Ascii (false, true,
+                         true, true, false, true, true, false)), (String
+                         ((Ascii (true, false, true, true, false, true,
+                         false, false)), (String ((Ascii (true, true, false,
+                         false, false, true, true, false)), (String ((Ascii
+                         (true, true, true, true, false, true, true, false)),
+                         (String ((Ascii (true, false, true, true, false,
+                         true, true, false)), (String ((Ascii (true, false,
+                         true, true, false, true, true, false)), (String
+                         ((Ascii (true, false, false, false, false, true,
+                         true, false)), (String ((Ascii (false, true, true,
+                         true, false, true, true, false)), (String ((Ascii
+                         (false, false, true, false, false, true, true,
+                         false)), EmptyString)))))))))))))))))))))))))))))))))))
       | _ ->
         vErr (String ((Ascii (false, true, false, false, false, true, true,
           false)), (String ((Ascii (true, false, false, false, false, true,
